@@ -34,6 +34,12 @@ def httpconn_queries(tier):
     def q(name, d, params):
         qs.append(Query("httpconn-" + name, "c16/httpconn.c", tus=HC_TUS, env=HC_ENV, defs=d, unwind=30, timeout=300, mem_gb=4, group="c16/httpconn.c#m%s" % d["MODE"],
                         params=params))
+    # MODE 5: two pipelined requests in one segment: the response to the first must not alter the buffered bytes of the second (finding F35)
+    for nm, d in (("pipelined-overlap", {"MODE": 5, "LINE1": 2, "HDREND": 4, "SEGS": "12, 6", "RLEN": 3, "BUFSZ": 16}),
+                  ("pipelined-nooverlap", {"MODE": 5, "LINE1": 3, "HDREND": 8, "SEGS": "12, 6", "RLEN": 1, "BUFSZ": 16}),
+                  ("pipelined-overlap-longer-head", {"MODE": 5, "LINE1": 3, "HDREND": 6, "SEGS": "14, 9", "RLEN": 4, "BUFSZ": 16})):
+        qs.append(Query("httpconn-" + nm, "c16/httpconn.c", tus=HC_TUS, env=HC_ENV, defs=d, unwind=30, unwind_rules=[(r"^nni_http_reason$", r".", 70)], timeout=300, mem_gb=4,
+                        group="~c16/httpconn.c#m5", params={"case": "two requests arrive in one segment; the response to the first is written before the second is parsed", "shape": d}))
     # MODE 1: head (two lines, ends at 3 and 7) + exact read of 5 + raw read; the first 12 (thorough: 14) bytes cut into segments
     total, parts = (12, 3) if tier == "quick" else (14, 4)
     for fl, fn in ((0, "req"), (1, "res"), (2, "chunk")):
